@@ -14,6 +14,9 @@ from .canon import Canon
 MAX_LEMMA_ATOMS = 400
 
 
+_BUILTIN = ('exp', 'log', 'sqrt', 'erf', 'trunc', 'abs', 'pow')
+
+
 class Stats(object):
     def __init__(self):
         self.queries = 0
@@ -410,6 +413,23 @@ class Solver(object):
             env = {}
             for n in names:
                 env[n] = _num(m.eval(z3.Real(n), model_completion=True))
+            # the values the model gives to applications of the uninterpreted
+            # symbols (the float replay can adopt them: a counter-example may
+            # need, say, a non-positive model output at one time point)
+            ufv = []
+            for a in atoms.values():
+                if not isinstance(a.args[0], str) or a.args[0] in _BUILTIN:
+                    continue
+                try:
+                    val = _num(m.eval(self.z(a), model_completion=True))
+                    args = [_num(m.eval(self.z(x), model_completion=True))
+                            for x in a.args[1:]]
+                    ufv.append([a.args[0], [float(x) for x in args],
+                                float(val)])
+                except Exception:
+                    continue
+            if ufv:
+                env['__uf__'] = ufv
             return 'sat', env
         st.unknown += 1
         return 'unknown', None
